@@ -331,6 +331,10 @@ def check_real(case):
         return orig(fld)
     P.disc.rhs = rec
     solver = cases.build_integrator(name, P.mesh, P.disc)
+    # the integrator object may have a past (see sim.preuse_solver; variant 3 is a run with a residual monitor firing at every iteration): a step() afterwards is still
+    # the Runge-Kutta step of the field it is given
+    hist = sim.preuse_solver(P, solver, case, case["cfl"])
+    del times[:]
     solver.step(field, dt)
     got = np.concatenate([np.asarray(d, dtype=float) for d in field.data])
     A, b, _c, s, _ = extract_tableau(name)
